@@ -158,6 +158,20 @@ class VRef(Val):
         return ("ref", self.cell, self.path)
 
 
+class VBox(Val):
+    """shared reference to a constant aggregate (promoted `&Some(1)`)"""
+    __slots__ = ("inner",)
+
+    def __init__(self, inner):
+        self.inner = inner
+
+    def __repr__(self):
+        return "&const %r" % (self.inner,)
+
+    def key(self):
+        return ("box", valkey(self.inner))
+
+
 class VSlice(Val):
     """&[u8] fat pointer into buffer `buf` (a hashable term): bytes [start, start+len)."""
     __slots__ = ("buf", "start", "len")
